@@ -8,6 +8,15 @@ BASE = ("go/types + go/ssa (x/tools v0.29.0) faithful IR; stdlib contracts as do
         "(DESIGN.md section 3); caller-supplied io.Reader/io.Writer obey their contracts")
 
 CHECKS = {
+ "C11": dict(level="proof", ref="§4 C11",
+   text="Every instruction of every function reachable from WriteTo/String/Error/Dump/WellFormed/accessors is inspected for nondeterminism sources (map ranges must be over provably <=1-entry map literals; no select/go/channel; external calls only from a deterministic allow-list; no address printed by fmt; no pointer-to-integer conversion), and the provenance/effect analysis shows these operations write nothing but their io.Writer argument and that package state is init-only. A sequential function without those sources is a function of its inputs in any process. Proof modulo the stdlib model table.",
+   technique="static analysis: SSA instruction scan over the call graph + interprocedural write-effect/provenance analysis"),
+ "C13": dict(level="proof", ref="§4 C13",
+   text="Interprocedural write-effect/provenance analysis (fresh / parameter / parameter-reachable / captured / package variable; field-sensitive for fresh objects, closures and bound methods followed through bindings, fmt's reflective callees included): no read-only operation writes memory reachable from its receiver, arguments or package variables; package variables are assigned only in init and shared storage is never written in place; ReadPacket writes only memory it allocated. Without a write to a shared location no interleaving can race. Proof modulo the stdlib effect table.",
+   technique="static analysis: bottom-up effect and provenance summaries on go/ssa (purity analysis)"),
+ "C14": dict(level="proof", ref="§4 C14",
+   text="Retention edges from the provenance analysis: no UnmarshalBinary (16 packets + 9 wire types) stores anything derived from its input slice into non-fresh memory, returns it, or writes through it; no exported API returns package-variable storage or an uncopied load of a field sharing it; package state is init-only; the frame buffer handed to UnmarshalBinary on ReadPacket's tree is a make() of that call. Proof modulo the stdlib effect table.",
+   technique="static analysis: escape/retention (taint to non-fresh stores) via provenance summaries on go/ssa"),
  "C06": dict(level="proof", ref="§4 C06",
    text="Reader-use discipline on ReadPacket's call tree decided from SSA: the reader is only read through full-read primitives, header reads use 1-byte buffers, the body buffer's length is (without arithmetic) the cell written only by the streaming length reader on the same header object, the length loop consumes one byte per iteration with a data-dependent successful exit, and every exit of the body stage lies behind the completed body read or on the length==0 edge. Hence exactly 1+k+remaining bytes are requested on success and on content rejection. Proof modulo io contracts; the numeric agreement of length value and bytes consumed is C15's.",
    technique="static analysis: SSA reader-use enumeration, value-identity of the buffer size, dominance / must-pass-through on the CFG"),
